@@ -216,6 +216,7 @@ class N:
         self.cs: list[N] = []
         self.decls: list[tuple[str, str]] = []
         self.xsi_type: Optional[str] = None
+        self.tail: Optional[str] = None
 
 
 def gen_value(rng, stype: str, perr: float, defects: list) -> str:
@@ -319,6 +320,21 @@ def gen_node(rng, e: El, spec: Spec, perr: float, defects: list, depth: int, tag
             defects.append('wild:' + w)
     elif not n.cs and not e.children:
         pass
+    # character data in element-only content: stray text before the first child or after a child (an error
+    # owned by this element, not by a child), and harmless white space between children
+    if not e.mixed and n.cs:
+        r = rng.random()
+        p_stray = max(perr, 0.05) if depth == 0 else perr / 2
+        if r < p_stray:
+            if rng.random() < 0.5:
+                n.text = rng.choice(['stray', ' x '])
+            else:
+                rng.choice(n.cs).tail = rng.choice(['stray', ' y'])
+            defects.append('chardata')
+        elif r < p_stray + 0.1:
+            n.text = '\n  '
+            for c in n.cs:
+                c.tail = '\n  '
     return n
 
 
@@ -353,7 +369,7 @@ def serialise(n: N, spec: Spec, style: str, top=True, mark: Optional[list] = Non
         return s + '/>'
     s += '>' + (n.text or '')
     for c in n.cs:
-        s += serialise(c, spec, style, False, mark)
+        s += serialise(c, spec, style, False, mark) + (c.tail or '')
     return s + f'</{pre}{n.tag}>'
 
 
